@@ -108,12 +108,31 @@ fn blocking_unit(thorough: bool) -> Unit {
             held = must!(cx, "setup:pull", { let a = cx.api.clone(); async move { a.pull(S0, 1, true).await } });
         }
         let when_ms = [0u64, 1_000, 150_000][cx.choose("after", 3)];
+        // "after 0 ms" for a publish means: the Publish starts together with the Pull (race with its check-then-wait)
+        let together = when_ms == 0 && ev == 1;
         let log = Log::default();
         let (cx2, log2) = (cx.clone(), log.clone());
         let h = cx.spawn("client:a-pull", async move {
             let r = cx2.api.pull(S0, max, false).await;
             log2.push(&cx2, "pull", match &r { Ok(v) => format!("OK({})", v.len()), Err(c) => format!("{:?}", c) });
         });
+        if together {
+            let (cx3, log3) = (cx.clone(), log.clone());
+            cx.spawn("client:b-publish", async move {
+                let r = cx3.api.publish(T0, vec![(b"x".to_vec(), vec![]), (b"y".to_vec(), vec![])]).await;
+                log3.push(&cx3, "publish", res(&r));
+            });
+            tryv!(cx.quiesce().await);
+            if !h.is_finished() {
+                return ScenarioOut::viol("blocking/not-woken", format!("a Publish racing with the start of the Pull: the Pull is still waiting at quiescence although messages are available; {}", log.key()));
+            }
+            let got = log.last_of("pull").unwrap().what;
+            let n: usize = got.trim_start_matches("OK(").trim_end_matches(')').parse().unwrap_or(usize::MAX);
+            if !got.starts_with("OK(") || n == 0 || n > (max as usize).min(2) {
+                return ScenarioOut::viol("blocking/wrong-batch", format!("racing publish, max={}: returned {}", max, got));
+            }
+            return ScenarioOut::ok(format!("together:{}", log.key_per_client()));
+        }
         tryv!(cx.quiesce().await);
         if h.is_finished() {
             return ScenarioOut::viol("blocking/returned-at-once", format!("a Pull without return_immediately on an empty subscription returned {}", log.key()));
